@@ -58,7 +58,7 @@ void explore_masks(Ctx &ctx) {
     unsigned long none = 0, all = F_ALL;
     Rng r = ctx.rng("c10-corpus");
     uint64_t idx = 0;
-    int npol = 23 + (ctx.thorough() ? 40 : 8);
+    int npol = 23 + (ctx.thorough() ? 120 : 40);
     for (size_t e = 0; e < T.size(); e++) {
         int cost = T[e].cost;
         for (int pol = 0; pol < npol; pol++) {
